@@ -909,11 +909,69 @@ func (d coreSink) OpenSink() (io.WriteCloser, error) { return slowWC{d.s}, nil }
 
 // ---------------------------------------------------------------- main
 
+// emptyRun: a run that makes no report at all (empty ammo, a stop before the first shot) still owns
+// its result file: afterwards it exists and holds exactly what the run reported — nothing — even
+// if an earlier run left output at the same path.
+func emptyRun(res *vkit.Result) {
+	for _, kind := range []string{"phout", "jsonlines"} {
+		for _, stale := range []bool{false, true} {
+			c := map[string]any{"aggregator": kind, "reports": 0, "earlier_output_at_destination": stale}
+			dest := tmpName("." + kind)
+			if stale {
+				_ = vkit.WriteMemAt(dest, []byte("stale 1\nstale 2\nstale 3\n"))
+			}
+			conf := map[string]any{"type": "phout", "destination": dest}
+			if kind == "jsonlines" {
+				conf = map[string]any{"type": "jsonlines", "sink": map[string]any{"type": "file", "path": dest}}
+			}
+			aggr, err := realAggregator(conf)
+			if err != nil {
+				res.Inconclusive(true, "%s config rejected: %v", kind, err)
+				vkit.RemoveMem(dest)
+				continue
+			}
+			ctx, cancel := context.WithCancel(context.Background())
+			done := make(chan error, 1)
+			go func() { done <- aggr.Run(ctx, core.AggregatorDeps{Log: vkit.NopLog()}) }()
+			time.Sleep(5 * time.Millisecond)
+			cancel()
+			select {
+			case err := <-done:
+				if err != nil && !errors.Is(err, context.Canceled) {
+					res.Violate("C06/"+kind+"/empty-run/run-error", fmt.Sprintf("Run without reports returned %v", err), c)
+				}
+			case <-time.After(20 * time.Second):
+				res.Violate("C06/"+kind+"/empty-run/hang", "Run without reports did not return within 20 s of the cancel", c)
+				vkit.RemoveMem(dest)
+				continue
+			}
+			data, err := afero.ReadFile(vkit.Fs(), dest)
+			switch {
+			case err != nil:
+				res.Violate("C06/"+kind+"/empty-run/no-file", fmt.Sprintf("the result file does not exist after the run: %v", err), c)
+			case len(data) != 0:
+				res.Violate("C06/"+kind+"/empty-run/stale-lines", fmt.Sprintf("0 reports were made, the result file holds %d bytes: %q", len(data), short(string(data))), c)
+			}
+			vkit.RemoveMem(dest)
+			res.Count("empty_runs", 1)
+			res.Eval(vkit.JSON(c), true)
+		}
+	}
+}
+
+func short(s string) string {
+	if len(s) > 80 {
+		return s[:80] + "…"
+	}
+	return s
+}
+
 func main() {
 	vkit.Fs()
 	res := vkit.NewResult("layer 1: seeded (goroutines, samples, queue size, buffer size, flush interval, cancel delay after the last Report, id on/off, slow sink) histories of Report calls against the real phout and jsonlines aggregators, output judged by an independent strict parser; layer 2: real engine + phout ending normally or cancelled after k reports; layer 3: real pandora binary stopped by SIGINT/SIGTERM at seeded instants. distinct = distinct case parameters; non-trivial = at least one report (process: more requests answered than instances)")
 	rng := vkit.Rand("c06")
 	cancelUs := []int{-1, 0, 0, 20, 200, 2000, 20000}
+	emptyRun(res)
 	// regression seeds first
 	phoutOnce(res, phoutCase{G: 4, K: 50, Queue: 8, WithID: true, CancelUs: 0, Seed: 11})
 	phoutOnce(res, phoutCase{G: 1, K: 1, Queue: 1, WithID: false, CancelUs: 0, Seed: 12})
